@@ -268,7 +268,7 @@ def stepT (st : St) (w : List String) : St × String :=
   | ["t", "sweep"] =>
     (st, s!"R {sweepModel st.r} | C - | I - | S {sweepSpec st.s} ; *")
   | ["t", "abi"] =>
-    let l := s!"type_traits={TypeTab.traitsRecord} ptr={TypeTab.pointerSize} iovec={(abiSize "struct iovec").getD 0}"
+    let l := s!"type_traits={TypeTab.traitsRecord} ptr={TypeTab.pointerSize} iovec={(cSize "struct iovec").getD 0}"
     (st, s!"R {l} | C - | I - | S {l} ; *")
   | _ => (st, "bad-op")
 
